@@ -142,6 +142,13 @@ Proof.
     cbn [orb]. discriminate.
 Qed.
 
+Lemma mem_bytes_In k l : mem_bytes k l = true -> In k l.
+Proof.
+  induction l as [|x l IH]; cbn [mem_bytes]; [discriminate|]. intros H. apply orb_true_iff in H as [H|H].
+  - left. now apply beqb_eq.
+  - right. now apply IH.
+Qed.
+
 Lemma nodup_ci_NoDup l : nodup_ci l = true -> NoDup l.
 Proof.
   induction l as [|x l IH]; [constructor|]. cbn [nodup_ci]. intros H. apply andb_true_iff in H as [H1 H2].
@@ -187,11 +194,18 @@ Section Boot.
 
   Hypothesis Htab : table_ok table = true.
   Hypothesis Hdfl : defaults_ok opts defaults = true.
+  (* values assigned before the attachment (TorConfig() ... attach_protocol()) sit in `config` under
+     option names; _do_setup overwrites every one of them *)
+  Hypothesis Hpre : forall x, In x (map fst (pre_config (i_pre i))) -> In x (map fst opts).
+
+  Lemma opts_nodup : nodup_ci (map fst opts) = true.
+  Proof. unfold table_ok in Htab. apply andb_true_iff in Htab as [H _]. apply andb_true_iff in H as [_ H]. exact H. Qed.
 
   (* the state after the rows that announce the options [po] *)
   Definition binv (st : mst) (po : list (bytes * kind)) : Prop :=
     map fst (m_parsers st) = map fst po /\
-    map fst (m_config st) = map fst po /\
+    ((forall cn k, In (cn, k) po -> dmem cn (m_config st) = true) /\
+     (forall x, In x (map fst (m_config st)) -> In x (map fst opts))) /\
     (forall cn k, In (cn, k) po -> dget cn (m_parsers st) = Some (ty_of k)) /\
     (forall cn k, In (cn, k) po -> synced defaults st estore cn k) /\
     m_unsaved st = [] /\
@@ -206,32 +220,38 @@ Section Boot.
   Lemma mem_bytes_snoc x l c : mem_bytes x (l ++ [c]) = mem_bytes x l || beqb c x.
   Proof. induction l as [|y l IH]; cbn [app mem_bytes]; [now rewrite orb_false_r|]. now rewrite IH, orb_assoc. Qed.
 
-  Lemma fresh_real_name st po cn : binv st po -> mem_ci cn (map fst po) = false -> find_real_name st cn = cn.
+  Lemma fresh_real_name st po cn k0 :
+    binv st po -> mem_ci cn (map fst po) = false -> In (cn, k0) opts -> find_real_name st cn = cn.
   Proof.
-    intros [H1 [H2 _]] Hf. unfold find_real_name. rewrite H1, H2.
-    rewrite find_fresh; [reflexivity|]. intros x Hx. apply in_app_or in Hx.
-    assert (In x (map fst po)) as Hx' by tauto.
-    destruct (ci_eqb x cn) eqn:E; [|reflexivity]. exfalso.
-    assert (mem_ci cn (map fst po) = true) as X; [|congruence]. apply mem_ci_ex. eauto.
+    intros [H1 [[_ H2b] _]] Hf Hino. unfold find_real_name. rewrite H1.
+    destruct (find (fun x => ci_eqb x cn) (map fst po ++ map fst (m_config st))) as [x|] eqn:E; [|reflexivity].
+    apply find_some in E as [Hx Hci]. apply in_app_or in Hx as [Hx|Hx].
+    - exfalso. assert (mem_ci cn (map fst po) = true) as X; [|congruence]. apply mem_ci_ex. eauto.
+    - (* a name assigned before the attachment: an option name, so it is cn itself *)
+      eapply nodup_ci_unique; [exact opts_nodup|exact (H2b _ Hx)|now apply (in_map fst) in Hino|exact Hci].
   Qed.
 
   (* one `self.parsers[cn] = ...; self.config[cn] = v` *)
   Lemma set_option st po cn k v lp :
-    binv st po -> mem_ci cn (map fst po) = false -> mem_ci cn reserved_names = false ->
+    binv st po -> mem_ci cn (map fst po) = false -> mem_ci cn reserved_names = false -> In cn (map fst opts) ->
     lp = (if is_list_kind k then m_listp st ++ [cn] else m_listp st) ->
     (forall st1, dget cn (m_config st1) = Some v -> m_defaults st1 = ddict -> synced defaults st1 estore cn k) ->
     binv (set_config {| m_parsers := dset cn (ty_of k) (m_parsers st); m_listp := lp; m_defaults := m_defaults st;
                         m_config := m_config st; m_unsaved := m_unsaved st |} cn v) (po ++ [(cn, k)]).
   Proof.
-    intros [H1 [H2 [H3 [H4 [H5 [H6 [H7 H8]]]]]]] Hf Hres -> Hs.
+    intros [H1 [[H2a H2b] [H3 [H4 [H5 [H6 [H7 H8]]]]]]] Hf Hres Hcno -> Hs.
     pose proof (mem_ci_false_not_in _ _ Hf) as Hni.
     assert (dget cn (m_parsers st) = None) as Hpn by (apply dget_not_in; now rewrite H1).
-    assert (dget cn (m_config st) = None) as Hcn by (apply dget_not_in; now rewrite H2).
     unfold set_config. cbn [m_parsers m_config m_unsaved m_defaults m_listp]. rewrite H5. cbn [dget].
     unfold binv. cbn [m_parsers m_config m_unsaved m_defaults m_listp].
     split; [|split; [|split; [|split; [|split; [|split; [|split]]]]]]; try assumption; try reflexivity.
     - rewrite keys_dset_new by assumption. now rewrite map_app, H1.
-    - rewrite keys_dset_new by assumption. now rewrite map_app, H2.
+    - split.
+      + intros c k0 Hin. apply in_app_or in Hin as [Hin|[Hin|[]]].
+        * apply dmem_dset_mono. eapply H2a; eassumption.
+        * inversion Hin. subst. unfold dmem. now rewrite dget_dset_same.
+      + intros x Hx. apply in_map_iff in Hx as [[x' v'] [<- Hx]]. cbn [fst].
+        apply In_dset in Hx as [[-> _]|Hx]; [assumption|]. apply H2b. now apply (in_map fst) in Hx.
     - intros c k0 Hin. apply in_app_or in Hin as [Hin|[Hin|[]]].
       + rewrite dget_dset_other; [now apply H3|]. intros ->. apply Hni. now apply (in_map fst) in Hin.
       + inversion Hin. subst. apply dget_dset_same.
@@ -256,12 +276,12 @@ Section Boot.
   Qed.
 
   Lemma set_option' st po cn k v lp d :
-    binv st po -> mem_ci cn (map fst po) = false -> mem_ci cn reserved_names = false ->
+    binv st po -> mem_ci cn (map fst po) = false -> mem_ci cn reserved_names = false -> In cn (map fst opts) ->
     lp = (if is_list_kind k then m_listp st ++ [cn] else m_listp st) -> d = m_defaults st ->
     (forall st1, dget cn (m_config st1) = Some v -> m_defaults st1 = ddict -> synced defaults st1 estore cn k) ->
     binv (set_config {| m_parsers := dset cn (ty_of k) (m_parsers st); m_listp := lp; m_defaults := d;
                         m_config := m_config st; m_unsaved := m_unsaved st |} cn v) (po ++ [(cn, k)]).
-  Proof. intros Hb Hf Hres Hlp -> Hs. now apply set_option. Qed.
+  Proof. intros Hb Hf Hres Hcno Hlp -> Hs. now apply set_option. Qed.
 
   (* ---- the view of each kind of option, as _do_setup computes it ---- *)
   Lemma ddict_get cn : dget cn ddict = dval_of (default_lines defaults cn).
@@ -538,9 +558,6 @@ Section Boot.
     repeat match goal with |- context [if ?b then _ else _] => destruct b end; intros H; inversion H; discriminate.
   Qed.
 
-  Lemma opts_nodup : nodup_ci (map fst opts) = true.
-  Proof. unfold table_ok in Htab. apply andb_true_iff in Htab as [H _]. apply andb_true_iff in H as [_ H]. exact H. Qed.
-
   Lemma opt_facts cn k : In (cn, k) opts -> mem_ci cn reserved_names = false /\ name_ok cn = true.
   Proof. exact (in_opts_facts i Htab cn k). Qed.
 
@@ -654,12 +671,12 @@ Section Boot.
       assert (mem_ci base (map fst po) = false) as Hfresh.
       { pose proof opts_nodup as Hnd. rewrite Hopts in Hnd. cbn [app] in Hnd. rewrite map_app in Hnd. cbn [map fst] in Hnd.
         exact (nodup_ci_app_fresh _ _ _ Hnd). }
-      cbv zeta. rewrite (fresh_real_name _ _ _ Hb Hfresh), port_list_parser.
+      cbv zeta. rewrite (fresh_real_name _ _ _ _ Hb Hfresh Hin), port_list_parser.
       assert (m_defaults st = ddict) as Hdd by (destruct Hb as [_ [_ [_ [_ [_ [H6 _]]]]]]; exact H6).
       rewrite Hdd.
       destruct (boot_ports base Hin) as [L [HL [Hok Hty]]]. rewrite HL.
       eexists. split; [reflexivity|].
-      apply set_option'; [assumption|assumption|exact (proj1 (opt_facts _ _ Hin))|reflexivity|now rewrite Hdd|].
+      apply set_option'; [assumption|assumption|exact (proj1 (opt_facts _ _ Hin))|now apply (in_map fst) in Hin|reflexivity|now rewrite Hdd|].
       intros st' Hc _. unfold synced. eapply ports_lines; eassumption.
     - exists st. split; [reflexivity|]. now rewrite app_nil_r.
   Qed.
@@ -687,23 +704,23 @@ Section Boot.
       + (* list kinds *)
         assert (k = KLine \/ k = KComma) as Hk by (destruct k; try discriminate Elk; try congruence; auto).
         assert (ty_of k = (pk_of k, vk_of k, true)) as Hty by (destruct Hk as [-> | ->]; reflexivity).
-        rewrite Hty. cbv zeta. rewrite (fresh_real_name _ _ _ Hb1 Hfresh).
+        rewrite Hty. cbv zeta. rewrite (fresh_real_name _ _ _ _ Hb1 Hfresh Hin).
         cbn [m_parsers m_listp m_defaults m_config m_unsaved].
         destruct (boot_list st1 n k (store_get store_ n) Hin Hk (Hstore n k Hin)) as [l [l' [Hp [Hl' _]]]].
         rewrite Hp. cbn [bind]. rewrite Hdd, Hl'. cbn [bind].
         eexists. split; [reflexivity|]. rewrite <- Hty.
-        apply set_option'; [assumption|assumption|exact (proj1 (opt_facts _ _ Hin))|now rewrite Elk|now rewrite Hdd|].
+        apply set_option'; [assumption|assumption|exact (proj1 (opt_facts _ _ Hin))|now apply (in_map fst) in Hin|now rewrite Elk|now rewrite Hdd|].
         intros st' Hc _. destruct (boot_list st' n k (store_get store_ n) Hin Hk (Hstore n k Hin)) as [l1 [l1' [Hp1 [Hl1' Hs]]]].
         rewrite Hp in Hp1. inversion Hp1. subst l1. rewrite Hl' in Hl1'. inversion Hl1'. subst l1'.
         unfold synced. rewrite (estore_other n k Hin Hnp). now apply Hs.
       + (* scalar kinds *)
         assert (ty_of k = (pk_of k, vk_of k, false)) as Hty by (destruct k; try discriminate Elk; try congruence; reflexivity).
-        rewrite Hty. cbv zeta. rewrite (fresh_real_name _ _ _ Hb1 Hfresh).
+        rewrite Hty. cbv zeta. rewrite (fresh_real_name _ _ _ _ Hb1 Hfresh Hin).
         cbn [m_parsers m_listp m_defaults m_config m_unsaved]. rewrite Hdd.
         destruct (boot_scalar st1 n k (store_get store_ n) Hin Elk (Hstore n k Hin) (fun v Hv => Hstore2 n k v Hin Hv)) as [parsed [Hp _]].
         unfold scalar_expr in Hp. rewrite Hp. cbn [bind].
         eexists. split; [reflexivity|]. rewrite <- Hty.
-        apply set_option'; [assumption|assumption|exact (proj1 (opt_facts _ _ Hin))|now rewrite Elk|now rewrite Hdd|].
+        apply set_option'; [assumption|assumption|exact (proj1 (opt_facts _ _ Hin))|now apply (in_map fst) in Hin|now rewrite Elk|now rewrite Hdd|].
         intros st' Hc Hd'. destruct (boot_scalar st' n k (store_get store_ n) Hin Elk (Hstore n k Hin) (fun v Hv => Hstore2 n k v Hin Hv)) as [parsed1 [Hp1 Hs]].
         unfold scalar_expr in Hp1. rewrite Hp in Hp1. inversion Hp1. subst parsed1. unfold synced.
         rewrite (estore_other n k Hin Hnp). apply Hs; [assumption|now rewrite Hd'].
@@ -768,14 +785,14 @@ Section Boot.
   Proof.
     unfold m_bootstrap. fold ddict. fold store_. fold table.
     set (st0 := {| m_parsers := []; m_listp := [bs "hiddenservices"; bs "ephemeralonionservices"];
-                   m_defaults := ddict; m_config := []; m_unsaved := [] |}).
+                   m_defaults := ddict; m_config := pre_config (i_pre i); m_unsaved := [] |}).
     assert (binv st0 (options [])) as Hb0.
     { unfold binv. cbn [options].
-      split; [reflexivity|]. split; [reflexivity|]. split; [intros c0 k0 []|]. split; [intros c0 k0 []|].
+      split; [reflexivity|]. split; [split; [intros c0 k0 []|exact Hpre]|]. split; [intros c0 k0 []|]. split; [intros c0 k0 []|].
       split; [reflexivity|]. split; [reflexivity|]. split; [intros c0 k0 []|]. intros x Hx. right.
       cbn [m_listp st0 mem_bytes] in Hx. apply orb_true_iff in Hx as [Hx|Hx]; [apply beqb_eq in Hx; left; exact Hx|].
       apply orb_true_iff in Hx as [Hx|Hx]; [apply beqb_eq in Hx; right; left; exact Hx|discriminate]. }
-    destruct (boot_rows table [] st0 eq_refl Hb0) as [st1 [E1 [H1 [H2 [H3 [H4 [H5 [H6 [H7 H8]]]]]]]]].
+    destruct (boot_rows table [] st0 eq_refl Hb0) as [st1 [E1 [H1 [[H2a H2b] [H3 [H4 [H5 [H6 [H7 H8]]]]]]]]].
     rewrite E1. cbn [bind]. eexists. split; [reflexivity|].
     set (e := bs "EphemeralOnionServices"). set (d := bs "DetachedOnionServices").
     assert (In e reserved_names) as He by (cbn; auto).
@@ -788,9 +805,7 @@ Section Boot.
     assert (m_unsaved (set_config (set_config st1 e (CList false [])) d (CList false [])) = []) as Hun.
     { unfold set_config. cbn [m_unsaved]. rewrite H5. reflexivity. }
     constructor; cbn [mon0 m_st m_det m_f1 m_f3 eff_ost s_store s_pend]; auto.
-    - intros cn k Hin. unfold dmem. rewrite (Hcfg _ _ Hin).
-      assert (In cn (map fst (m_config st1))) as Hk by (rewrite H2; now apply (in_map fst) in Hin).
-      apply dget_mem_keys in Hk. exact Hk.
+    - intros cn k Hin. unfold dmem. rewrite (Hcfg _ _ Hin). exact (H2a _ _ Hin).
     - intros cn k Hin. cbn [set_config m_defaults]. rewrite H6. apply ddict_get.
     - intros cn k Hin _. split; [now rewrite Hun|].
       eapply synced_frame; [exact (Hcfg _ _ Hin)|reflexivity|]. now apply H4.
@@ -804,12 +819,25 @@ End Boot.
 Theorem bootstrap_synced i :
   table_ok (i_table i) = true -> store_ok (i_table i) (i_store i) = true ->
   defaults_ok (options (i_table i)) (i_defaults i) = true ->
+  pre_ok (options (i_table i)) (i_pre i) = true ->
   exists st0, m_bootstrap i = Ok st0 /\ Rel (options (i_table i)) (i_defaults i) st0 (mon0 i).
 Proof.
-  intros Htab Hst Hdf.
+  intros Htab Hst Hdf Hpre.
   unfold store_ok in Hst. apply andb_true_iff in Hst as [Hst Hs4]. apply andb_true_iff in Hst as [Hst _].
   apply andb_true_iff in Hst as [Hs1 Hs2].
   apply bootstrap_rel; try assumption.
+  - (* the names assigned before the attachment are option names *)
+    unfold pre_ok in Hpre. unfold pre_config. destruct (i_pre i) as [l|]; [|intros x []].
+    assert (forall l0 acc, forallb (fun p : bytes * pyval => mem_bytes (fst p) (map fst (options (i_table i)))) l0 = true ->
+              (forall x, In x (map fst acc) -> In x (map fst (options (i_table i)))) ->
+              forall x, In x (map fst (fold_left (fun c (p : bytes * pyval) => dset (fst p) (cval_of_pyval true (snd p)) c) l0 acc)) ->
+                        In x (map fst (options (i_table i)))) as Hfold.
+    { induction l0 as [|p l0 IH]; intros acc Hl Hacc x Hx; [now apply Hacc|]. cbn [forallb] in Hl.
+      apply andb_true_iff in Hl as [Hp Hl]. cbn [fold_left] in Hx. apply (IH _ Hl) in Hx; [exact Hx|].
+      intros y Hy. apply in_map_iff in Hy as [[y' v'] [<- Hy]]. cbn [fst].
+      apply In_dset in Hy as [[-> _]|Hy]; [|apply Hacc; now apply (in_map fst) in Hy].
+      apply mem_bytes_In. exact Hp. }
+    apply (Hfold l [] Hpre). intros x [].
   - intros cn k Hin. exact (proj1 (forallb_forall _ _) Hs1 (cn, k) Hin).
   - intros cn v Hin Hv. pose proof (proj1 (forallb_forall _ _) Hs4 (cn, KPorts) Hin) as X. cbn [fst snd] in X.
     exact (proj1 (forallb_forall _ _) X v Hv).
